@@ -372,6 +372,39 @@ func dedup(a []string) []string {
 	return out
 }
 
+// TestC05Socket (property C05, live server with the default sub-package filter): conversations that consist mostly
+// of sub-packaged messages in 1..9 packets, packets 2..N in any order, mixed with plain traffic. Judged like C06:
+// each transfer reaches the handlers exactly once, complete, with the concatenated body, and is answered once.
+func TestC05Socket(t *testing.T) {
+	gen := func(t *rapid.T) c06Case {
+		convMostlyTransfers = true
+		defer func() { convMostlyTransfers = false }()
+		c := genC06(t)
+		return c
+	}
+	check := func(c c06Case, col *kit.Collector) kit.Result {
+		res := checkC06(c, col)
+		n1, many := false, false
+		for _, tm := range c.Terminals {
+			for _, r := range tm.Reqs {
+				if r.Transfer {
+					n1 = n1 || len(r.Serials) == 1
+					many = many || len(r.Serials) >= 5
+				}
+			}
+		}
+		if n1 {
+			res.Labels = append(res.Labels, "transfer_of_one_packet")
+		}
+		if many {
+			res.Labels = append(res.Labels, "transfer_of_5..9_packets")
+		}
+		res.NT = n1 || many
+		return res
+	}
+	kit.Run(t, kit.Prop[c06Case]{ID: "C05", Part: "TestC05Socket", Gen: gen, Check: softRetry(check)})
+}
+
 func TestC06(t *testing.T) {
 	kit.Run(t, kit.Prop[c06Case]{ID: "C06", Part: "TestC06", Gen: genC06, Check: softRetry(checkC06)})
 }
